@@ -89,7 +89,7 @@ func Worker(shard, n int, tier string) *engine.Result {
 	zero := common.Address{}
 	tos := []*common.Address{nil, &addr, &zero}
 	amounts := []*big.Int{big.NewInt(0), big.NewInt(1), max256}
-	prices := []*big.Int{big.NewInt(0), big.NewInt(1), max256, new(big.Int).Lsh(big.NewInt(1), 200)}
+	prices := []*big.Int{big.NewInt(0), big.NewInt(1), max256, new(big.Int).Lsh(big.NewInt(1), 200), big.NewInt(1000000000000)}
 	nonces := []uint64{0, 1, ^uint64(0)}
 	gases := []uint64{21000, 1<<63 - 1}
 	big4k := bytes.Repeat([]byte{0xab, 0x00, 0xff, 0x01}, 1024)
